@@ -131,7 +131,7 @@ func (r *Run) sortedOrigin(fn *ssa.Function, v ssa.Value, use ssa.Instruction, d
 
 // C19 — result statistics.
 func C19(p *Prog, r *Run) {
-	r.Explanation = "Decided: (1) every Floats method except Sum returns math.NaN() (both elements for MeanVariance) on the path where len(x)==0 and that test dominates every gonum call of the method (a method built only from other accessors of the type, which are NaN there themselves, needs no test of its own); (2) gonum preconditions, keyed by the library function: stat.Quantile gets a constant level in [0,1], the Empirical kind, nil weights and a slice on which a sort call dominates the use (a sorted copy), floats.Min/Max never see an empty slice; (3) on every path for a non-empty series each method returns the quantity of its definition (Mean→stat.Mean, …, Median/Q25/Q75→Quantile 0.5/0.25/0.75), applied to the series itself without weights, written either as the canonical gonum call or as an expression that gonum v0.14.0 defines to be the same value (stat.Variance = second result of stat.MeanVariance, stat.StdDev = second result of stat.MeanStdDev = math.Sqrt of the variance, stat.Mean = first result of MeanVariance/MeanStdDev = floats.Sum/float64(len), floats.Min = x[floats.MinIdx(x)], another accessor of the type for its own quantity; table with reasons in robust_c19.go), the population variants (divide by n) and hand-written loops are not accepted; (4) the experiment/trial aggregates are built from the recorded generations as their definitions say (success rate = solved/len, solved = any generation solved, epochs per trial = len(Generations), diversity, best organism chosen on a fresh slice; the solved count is the loop counter on every return, never a remembered value); (5) the complexity of an organism is Complexity() of the network returned by its Phenotype(), asked only when Phenotype() reported no error, with the math.MaxInt sentinel confined to a missing organism/champion or a failed phenotype. Results are followed through phi nodes edge by edge, so an early return and a single return of a merged value are the same to the rules; a quantile level may be a parameter of an unexported helper when every call in the repository passes a constant in [0,1]. Not decided: gonum's numerics; full recomputation equalities."
+	r.Explanation = "Decided: (1) every Floats method except Sum returns math.NaN() (both elements for MeanVariance) on the path where len(x)==0 and that test dominates every gonum call of the method (a method built only from other accessors of the type, which are NaN there themselves, needs no test of its own); (2) gonum preconditions, keyed by the library function: stat.Quantile gets a constant level in [0,1], the Empirical kind, nil weights and a slice on which a sort call dominates the use (a sorted copy), floats.Min/Max never see an empty slice; (3) on every path for a non-empty series each method returns the quantity of its definition (Mean→stat.Mean, …, Median/Q25/Q75→Quantile 0.5/0.25/0.75), applied to the series itself without weights, written either as the canonical gonum call or as an expression that gonum v0.14.0 defines to be the same value (stat.Variance = second result of stat.MeanVariance, stat.StdDev = second result of stat.MeanStdDev = math.Sqrt of the variance, stat.Mean = first result of MeanVariance/MeanStdDev = floats.Sum/float64(len), floats.Min = x[floats.MinIdx(x)], another accessor of the type for its own quantity; table with reasons in robust_c19.go), the population variants (divide by n) and hand-written loops are not accepted; (4) the experiment/trial aggregates are built from the recorded generations as their definitions say (success rate = solved/len, solved = any generation solved, epochs per trial = len(Generations), diversity, best organism chosen on a fresh slice; the solved count is the loop counter on every return, never a remembered value); (5) the complexity of an organism is Complexity() of the network returned by its Phenotype(), asked only when Phenotype() reported no error, with the math.MaxInt sentinel confined to a missing organism/champion or a failed phenotype. Results are followed through phi nodes edge by edge, so an early return and a single return of a merged value are the same to the rules; a quantile level may be a parameter of an unexported helper when every call in the repository passes a constant in [0,1]. A fixed-size result slice that is filled branch by branch and returned once is read path by path (the elements stored last on each acyclic path, under the branch outcomes of that path). A series element produced by a capture-free function literal that an inlined helper received as its function-valued argument is what the literal returns for these arguments; a path of the literal returning the constant 0 counts as leaving the freshly made element untouched when the store is the only writer of the slice and writes each element at most once. Not decided: gonum's numerics; full recomputation equalities."
 	r.Rule("C19.1", "empty guard: each Floats method except Sum returns NaN when len(x)==0, and the emptiness test dominates the library call", func() {
 		n := 0
 		for _, sp := range floatsTable {
@@ -166,6 +166,9 @@ func C19(p *Prog, r *Run) {
 			// guarded block, or a value that reaches a merged return over an edge on which len(x)==0 holds
 			nan, delegated := 0, 0
 			leaves := retLeaves(fn, 0)
+			if sp.method == "MeanVariance" {
+				leaves = c19ExpandPairs(fn, leaves, 2)
+			}
 			for _, lf := range leaves {
 				if !c19OnEmpty(tm, lf, "recv") {
 					// produced without a test of the length at all: NaN on the empty series when it is built
@@ -179,8 +182,8 @@ func C19(p *Prog, r *Run) {
 				okRet := rt.String() == "math.NaN()"
 				if sp.method == "MeanVariance" {
 					// the pair {NaN, NaN}: both elements of the returned fresh slice are results of math.NaN()
-					els, isPair := c19FreshElems(lf.Val, 2, lf.Block)
-					okRet = isPair && tm.Of(els[0]).String() == "math.NaN()" && tm.Of(els[1]).String() == "math.NaN()"
+					// (filled once, or branch by branch: then this is the path on which len(x)==0)
+					okRet = len(lf.Els) == 2 && tm.Of(lf.Els[0]).String() == "math.NaN()" && tm.Of(lf.Els[1]).String() == "math.NaN()"
 				}
 				r.Check(okRet, "Floats."+sp.method+".nan", p.Pos(lf.Ret.Pos()), "returns NaN for an empty series", fmt.Sprintf("the empty-series path returns %s, expected NaN", rt))
 				nan++
@@ -240,7 +243,11 @@ func C19(p *Prog, r *Run) {
 			var bad []string
 			var shown string
 			pos := p.Pos(fn.Pos())
-			for _, lf := range retLeaves(fn, 0) {
+			leaves := retLeaves(fn, 0)
+			if sp.method == "MeanVariance" {
+				leaves = c19ExpandPairs(fn, leaves, 2)
+			}
+			for _, lf := range leaves {
 				if sp.guard && c19OnEmpty(tm, lf, "recv") {
 					continue // the empty series: C19.1
 				}
@@ -256,8 +263,8 @@ func C19(p *Prog, r *Run) {
 						}
 					}
 				case sp.method == "MeanVariance":
-					if els, isPair := c19FreshElems(lf.Val, 2, lf.Block); isPair {
-						e0, e1 := tm.Of(els[0]), tm.Of(els[1])
+					if len(lf.Els) == 2 {
+						e0, e1 := tm.Of(lf.Els[0]), tm.Of(lf.Els[1])
 						ok = q.Is("Mean", e0) && q.Is("Variance", e1)
 						t = &Term{Op: "call", Name: "pair", Args: []*Term{e0, e1}}
 					}
@@ -410,49 +417,60 @@ func C19(p *Prog, r *Run) {
 			okLen := tm.Of(ms.Len).String() == "len("+e.list+")"
 			okElem, n := true, 0
 			var got []string
-			for _, st := range elemStoresInto(fn, ms) {
+			// one store `series[i] = v`: v is the wanted statistic of element i of the list. A value
+			// produced by a function literal bound at an inlined call site (a helper with a
+			// function-valued parameter) is what the literal returns for these arguments; a path of
+			// the literal that returns the constant 0 is the same as not storing (the rule accepts a
+			// store under a condition: the element then keeps the 0 of make) provided the store is
+			// the only writer of the fresh slice and writes each element at most once.
+			checkStore := func(st *ssa.Store, needLoop bool) {
 				n++
 				ia := st.Addr.(*ssa.IndexAddr)
-				vt := tm.Of(st.Val)
-				got = append(got, vt.String())
-				if !isWanted(e, vt) {
-					okElem = false
-				}
-				// same index on both sides: the element index of the list read equals the index written
-				same := false
-				vt.Walk(func(x *Term) bool {
-					if x.Op == "elem" && x.Args[0].String() == e.list && len(x.Args) > 1 && x.Args[1].V == ia.Index {
-						same = true
+				nWanted := 0
+				for _, a := range c19ValueAlts(tm, st.Val) {
+					vt := a.T
+					got = append(got, vt.String())
+					if a.ZeroLeaf {
+						if !(c19OncePerElement(fn, st) && c19OnlyWriter(ms, st)) {
+							okElem = false
+						}
+						continue
 					}
-					return true
-				})
-				l := InnermostLoop(Loops(fn), st.Block())
-				if !same || l == nil || !loopRangesOver(tm, l, e.list) {
+					nWanted++
+					if !isWanted(e, vt) {
+						okElem = false
+					}
+					// same index on both sides: the element index of the list read equals the index written
+					same := false
+					vt.Walk(func(x *Term) bool {
+						if x.Op == "elem" && x.Args[0].String() == e.list && len(x.Args) > 1 && x.Args[1].V == ia.Index {
+							same = true
+						}
+						return true
+					})
+					if !same {
+						okElem = false
+					}
+				}
+				if nWanted == 0 {
 					okElem = false
 				}
+				if needLoop {
+					l := InnermostLoop(Loops(fn), st.Block())
+					if l == nil || !loopRangesOver(tm, l, e.list) {
+						okElem = false
+					}
+				}
+			}
+			for _, st := range elemStoresInto(fn, ms) {
+				checkStore(st, true)
 			}
 			// stores into a named-type slice go through a ChangeType: look there too
 			if n == 0 {
 				for _, ref := range *ms.Referrers() {
 					if ct, ok := ref.(*ssa.ChangeType); ok {
 						for _, st := range elemStoresInto(fn, ct) {
-							n++
-							ia := st.Addr.(*ssa.IndexAddr)
-							vt := tm.Of(st.Val)
-							got = append(got, vt.String())
-							if !isWanted(e, vt) {
-								okElem = false
-							}
-							same := false
-							vt.Walk(func(x *Term) bool {
-								if x.Op == "elem" && x.Args[0].String() == e.list && len(x.Args) > 1 && x.Args[1].V == ia.Index {
-									same = true
-								}
-								return true
-							})
-							if !same {
-								okElem = false
-							}
+							checkStore(st, false)
 						}
 					}
 				}
@@ -635,7 +653,10 @@ func C19(p *Prog, r *Run) {
 							base = ct.X
 						}
 						if _, isMk := base.(*ssa.MakeSlice); isMk {
-							out = append(out, tm.Of(st.Val))
+							// (a value produced by a function literal bound at an inlined call site is what the literal returns)
+							for _, a := range c19ValueAlts(tm, st.Val) {
+								out = append(out, a.T)
+							}
 						}
 					}
 				}
